@@ -140,6 +140,13 @@ theorem effect_eq_sendWith (api : Api) (d : ApiDef) (env : Env) (ps : List (Str 
 theorem C17_lazy (api : Api) (d : ApiDef) (ps : List (Str × Val)) (body : Option Body) (tgt : Nat) :
     apiCall {} api d ps body tgt = fun env w => effect {} api d env ps body tgt w := rfl
 
+/-- the driver's `call` step (invoking the API function with path parameters, body and target) sends
+    nothing and touches no header map: only an evaluation does -/
+theorem C17_call_sends_nothing (fl : Flags) (d : ApiDef) (st : St) (ps : List (Str × Val)) (body : Option Body) :
+    (callStep fl d st ps body).w.log = st.w.log ∧ (callStep fl d st ps body).w.heap = st.w.heap ∧
+    (callStep fl d st ps body).ios.length = st.ios.length + 1 := by
+  simp [callStep]
+
 /-- **exactly one request, the prescribed one, through a private header copy; errors surface.**
     For every configuration, parameters, body, environment and world with a valid DefaultHeader address,
     one evaluation is one of:
